@@ -454,6 +454,20 @@ def id_maps(draw, inst):
     smap = list(draw(st.permutations(pools[0])))[:inst['n1']]
     pmap = list(draw(st.permutations(pools[1])))[:inst['n2']]
     lmap = list(draw(st.permutations(pools[2])))[:inst['n3']] if inst['na'] == 3 else None
+    if pct(draw) < 30 and inst['n1'] >= 2:
+        # numbers whose decimal spellings concatenate identically: student x with partner yz,
+        # student xy with partner z (x y z digits): "x"+"yz" == "xy"+"z"
+        x, y, z = uni(draw, 1, 2), uni(draw, 1, 2), uni(draw, 1, 9)
+        s2 = [x, 10 * x + y]
+        o2 = [10 * y + z, z]
+        if o2[0] != o2[1]:
+            smap = (s2 + [v for v in smap if v not in s2])[:inst['n1']]
+            other = lmap if (lmap is not None and inst['n3'] >= 2 and draw(st.booleans())) \
+                else (pmap if inst['n2'] >= 2 else None)
+            if other is not None:
+                n = len(other)
+                other[:] = (o2 + [v for v in other if v not in o2])[:n]
+            smap = list(draw(st.permutations(smap)))
     return {'smap': smap, 'pmap': pmap, 'lmap': lmap}
 
 
